@@ -621,6 +621,9 @@ func main() {
 	genLocks(map[string]*pkg{"service": svc, "topics": topics, "sessions": sess})
 	genStopOrder(svc)
 
+	if emitTranslated(filepath.Join(filepath.Dir(outPath), "Translated.v"), msg, topics, sess, svc) {
+		fmt.Println("gentables: Translated.v updated")
+	}
 	old, _ := os.ReadFile(outPath)
 	if !bytes.Equal(old, out.Bytes()) {
 		if err := os.WriteFile(outPath, out.Bytes(), 0o644); err != nil {
@@ -630,4 +633,15 @@ func main() {
 	} else {
 		fmt.Println("gentables: Tables.v unchanged")
 	}
+}
+
+func writeIfChanged(path, content string) bool {
+	old, _ := os.ReadFile(path)
+	if string(old) == content {
+		return false
+	}
+	if err := os.WriteFile(path, []byte(content), 0o644); err != nil {
+		fail("%v", err)
+	}
+	return true
 }
